@@ -1,8 +1,10 @@
 """Engine F - family sweep: deterministic cost functions over scalable input
 families (DESIGN 3.F, used by C16).
 
-* `measure(text)` runs `CParser().parse(text)` under `sys.setprofile` and counts
-  the Python `call` events whose code object lives in pycparser's
+* `measure(text)` runs `CParser().parse(text)` and counts the Python `call`
+  events (as `sys.setprofile` reports them; observed through the cheaper
+  `sys.monitoring` PY_START where the interpreter has it, cross-checked
+  against `sys.setprofile`) whose code object lives in pycparser's
   `c_parser.py` / `c_lexer.py` / `ast_transforms.py`.  The count is a pure
   function of the text (checked by the caller by measuring twice).  A fixed
   *step cap* (a number of call events, never a time) aborts a run that is
@@ -56,57 +58,132 @@ def _is_counted(code) -> bool:
     return os.path.realpath(os.path.dirname(fn)) == _pkg_dir()
 
 
-def measure(text, cap=None, funcs=None, edges=None):
-    """-> (outcome, steps).  outcome: 'ok' | 'perr:<msg>' | 'rec' | 'cap' |
-    'exc:<repr>'.  `funcs`, if a dict, receives per-function call counts;
-    `edges`, if a dict, receives {'in': {callee: n}, 'out': {caller: n}} over
-    the counted calls (caller = the calling function when it is itself in a
-    counted file)."""
-    import gc
-
-    from pycparser.c_parser import CParser, ParseError
-
-    if sys.getrecursionlimit() < RECURSION_LIMIT:
-        sys.setrecursionlimit(RECURSION_LIMIT)
-    parser = CParser()
-    hit = _CODE_HIT
+def _counter(cap, funcs, edges):
+    """-> (on_call(code, caller_code_or_None) -> None, get_n).  Shared by the
+    two ways of observing call events."""
     n = 0
     limit = cap if cap is not None else 1 << 62
+    e_in = e_out = None
     if edges is not None:
         e_in = edges.setdefault("in", {})
         e_out = edges.setdefault("out", {})
+    hit = _CODE_HIT
+
+    def on_call(code, frame):
+        # frame: the frame of the function being entered (only looked at when
+        # per-caller counts are wanted)
+        nonlocal n
+        n += 1
+        if funcs is not None:
+            funcs[code.co_name] = funcs.get(code.co_name, 0) + 1
+        if e_in is not None:
+            e_in[code.co_name] = e_in.get(code.co_name, 0) + 1
+            back = frame.f_back
+            if back is not None:
+                bc = back.f_code
+                hb = hit.get(bc)
+                if hb is None:
+                    hb = hit[bc] = _is_counted(bc)
+                if hb:
+                    e_out[bc.co_name] = e_out.get(bc.co_name, 0) + 1
+        if n > limit:
+            raise StepCap()
+
+    return on_call, lambda: n
+
+
+_MON_TOOL = None
+
+
+def _observe_setprofile(run, on_call, want_frames):
+    """Reference implementation: sys.setprofile, `call` events."""
+    hit = _CODE_HIT
 
     def prof(frame, event, arg):
-        nonlocal n
         if event == "call":
             code = frame.f_code
             h = hit.get(code)
             if h is None:
                 h = hit[code] = _is_counted(code)
             if h:
-                n += 1
-                if funcs is not None:
-                    funcs[code.co_name] = funcs.get(code.co_name, 0) + 1
-                if edges is not None:
-                    e_in[code.co_name] = e_in.get(code.co_name, 0) + 1
-                    back = frame.f_back
-                    if back is not None:
-                        bc = back.f_code
-                        hb = hit.get(bc)
-                        if hb is None:
-                            hb = hit[bc] = _is_counted(bc)
-                        if hb:
-                            e_out[bc.co_name] = e_out.get(bc.co_name, 0) + 1
-                if n > limit:
-                    raise StepCap()
+                on_call(code, frame)
+
+    sys.setprofile(prof)
+    try:
+        run()
+    finally:
+        sys.setprofile(None)
+
+
+def _observe_monitoring(run, on_call, want_frames):
+    """Same events through sys.monitoring (3.12+): PY_START of the counted code
+    objects only - code outside the three files is switched off at its first
+    event, and there are no return / C-call events at all, which makes this
+    ~5x cheaper.  Checked against the reference by the selfcheck and by C16 on
+    one member of every single-construct family."""
+    mon = sys.monitoring
+    hit = _CODE_HIT
+    DISABLE = mon.DISABLE
+    getframe = sys._getframe
+
+    def cb(code, offset):
+        h = hit.get(code)
+        if h is None:
+            h = hit[code] = _is_counted(code)
+        if not h:
+            return DISABLE
+        on_call(code, getframe(1) if want_frames else None)
+
+    global _MON_TOOL
+    if _MON_TOOL is None:
+        for tid in (4, 3):
+            if mon.get_tool(tid) is None:
+                _MON_TOOL = tid
+                break
+        else:
+            raise RuntimeError("no free sys.monitoring tool id")
+    tool = _MON_TOOL
+    mon.use_tool_id(tool, "verif-family-sweep")
+    try:
+        mon.register_callback(tool, mon.events.PY_START, cb)
+        mon.restart_events()
+        mon.set_events(tool, mon.events.PY_START)
+        try:
+            run()
+        finally:
+            mon.set_events(tool, 0)
+            mon.register_callback(tool, mon.events.PY_START, None)
+    finally:
+        mon.free_tool_id(tool)
+
+
+def measure(text, cap=None, funcs=None, edges=None, method=None):
+    """-> (outcome, steps).  outcome: 'ok' | 'perr:<msg>' | 'rec' | 'cap' |
+    'exc:<repr>'.  steps = number of `call` events (as sys.setprofile reports
+    them) of code objects in the three parser files.  `funcs`, if a dict,
+    receives per-function call counts; `edges`, if a dict, receives {'in':
+    {callee: n}, 'out': {caller: n}} over the counted calls (caller = the
+    calling function when it is itself in a counted file).  method:
+    'setprofile' | 'monitoring' | None (monitoring when the interpreter has
+    it)."""
+    import gc
+
+    from pycparser.c_parser import CParser, ParseError
+
+    if sys.getrecursionlimit() < RECURSION_LIMIT:
+        sys.setrecursionlimit(RECURSION_LIMIT)
+    if method is None:
+        method = "monitoring" if hasattr(sys, "monitoring") else "setprofile"
+    observe = _observe_monitoring if method == "monitoring" else _observe_setprofile
+    parser = CParser()
+    on_call, get_n = _counter(cap, funcs, edges)
 
     out = "ok"
     # the cyclic collector only adds (load-dependent) time: ASTs are acyclic
     gc_was = gc.isenabled()
     gc.disable()
-    sys.setprofile(prof)
     try:
-        parser.parse(text)
+        observe(lambda: parser.parse(text), on_call, edges is not None)
     except ParseError as e:
         out = "perr:" + str(e)[:120]
     except RecursionError:
@@ -116,10 +193,9 @@ def measure(text, cap=None, funcs=None, edges=None):
     except Exception as e:  # noqa
         out = "exc:" + repr(e)[:120]
     finally:
-        sys.setprofile(None)
         if gc_was:
             gc.enable()
-    return out, n
+    return out, get_n()
 
 
 def steps(text):
@@ -619,6 +695,7 @@ if __name__ == "__main__":  # --selfcheck: the measure is a function of the text
     for _t in ("int x;", nest_text(["paren"] * 8), nest_text(["cast", "struct_nest"] * 4),
                repeat_text("stmt_switch", 16)):
         _a, _b = measure(_t), measure(_t)
-        assert _a == _b and _a[0] == "ok", (_t, _a, _b)
+        _c = measure(_t, method="setprofile")
+        assert _a == _b == _c and _a[0] == "ok", (_t, _a, _b, _c)
         print(_a[1], _t[:70])
     print("selfcheck ok")
